@@ -150,6 +150,8 @@ func runC07(c *fw.Ctx, idx int) fw.Result {
 			ts[j].ID, ts[j].Desc = qs[k].ID, qs[k].Desc
 		}
 	}
+	gen.Describe(r, qs)
+	gen.Describe(r, ts)
 	W := len(qs[0].Seq)
 	qText := gen.RenderFasta(qs, gen.PickLineWidth(r, W))
 	tText := gen.RenderFasta(ts, gen.PickLineWidth(r, W))
@@ -167,7 +169,7 @@ func runC07(c *fw.Ctx, idx int) fw.Result {
 		binSample(c, &res, idx, "closest", map[string]string{"query.fasta": qText, "target.fasta": tText}, func(p func(string) string) []string {
 			a := []string{"closest", "--query", p("query.fasta"), "--target", p("target.fasta"), "-n", fmt.Sprint(len(ts)), "--table"}
 			if measure != "raw" || idx%4 < 2 {
-				a = append(a, "-m", measure) // raw is the documented default and may be left out
+				a = append(a, "-m", spellMeasure(measure, idx)) // raw is the documented default and may be left out
 			}
 			if bigD {
 				a = append(a, "-d", "1000") // every distance is within 1000: same output
@@ -176,7 +178,7 @@ func runC07(c *fw.Ctx, idx int) fw.Result {
 				a = append(a, "-t", fmt.Sprint(threads))
 			}
 			return a
-		}, nil, "", out)
+		}, nil, []string{"", "-o"}[fw.Mix(uint64(idx)+5)%2], out)
 	}
 	tab, _, ok := parseTable(out)
 	if !ok {
